@@ -201,6 +201,12 @@ int parse_instruction_sweet16(AsmContext *asm_context, char *instr)
 
           int offset = operands[0].value - (asm_context->address + 2);
 
+          if (offset < -128 || offset > 127)
+          {
+            print_error_range(asm_context, "Offset", -128, 127);
+            return -1;
+          }
+
           add_bin8(asm_context, table_sweet16[n].opcode, IS_OPCODE);
           add_bin8(asm_context, offset & 0xff, IS_OPCODE);
           //add_bin8(asm_context, (data >> 8) & 0xff, IS_OPCODE);
